@@ -496,7 +496,11 @@ func (n *nodeSim) finale() {
 				eligible = true
 			}
 		}
-		if tr.refused == "hop-limit" && eligible && n.live(tr) && !tr.localDst && (pend || (byID && tr.via == "deliver")) {
+		// in the store but no longer flagged pending after a duplicate reception is the recorded C05
+		// finding (retained-but-not-marked-for-retry/after-duplicate-reception): such a bundle is never
+		// dispatched again, so nothing can notice its hop count; not judged a second time here
+		knownLost := !pend && tr.reinjected > 0 && (n.algo == "epidemic" || n.algo == "sensor-mule" || n.algo == "prophet")
+		if tr.refused == "hop-limit" && eligible && n.live(tr) && !tr.localDst && !knownLost && (pend || (byID && tr.via == "deliver")) {
 			n.res.Violate("C06", "refused-dropped", "hop-limit-exceeded-bundle-kept", "%s (count %d, limit %d) is still in the store after a fault-free retry interval with a connected peer", tr.spec.Tag, tr.spec.HopCount, tr.spec.HopLimit)
 		}
 		// the cleaning job runs 10 minutes after the (re)start of the node and every 10 minutes from then on
